@@ -171,3 +171,58 @@ PROPS["C15"] = dict(
         dict(pkg=RP, run="^VerifC02_ArgPositions$", replay="model", reach=["unknown-number"], timeout=900),
     ],
 )
+
+KERN_NOTE = ("Kernel contract model (harness/zzverif/kern/kernel.go, interpreted with the code): K-FD descriptor tables with dup3/fcntl/close/cloexec-on-exec, K-CRED "
+             "capabilities/securebits/no_new_privs/setuid fix-up/seccomp precondition/exec recomputation, K-NS clone flags, K-PROC clone/vfork/exit/kill/wait4, K-SOCK stream "
+             "socketpair, K-FAULT arbitrary errno at any call. forkAndExecInChild runs as a second model process (vfork: shared heap; fork: deep-copied heap). ")
+
+PROPS["C04"] = dict(
+    level="other",
+    level_text=("Bounded symbolic execution of the real launcher (Runner.Start, forkAndExecInChild, syncWithChild, writeIDMaps) against the kernel contract model: every option "
+                "is a solver variable (clone flags 64-bit, uid/gid/groups 32-bit, booleans) and the executor forks only where the code branches; at the successful exec the "
+                "model process state is compared with a specification function of the options (caps empty + NOROOT, no_new_privs, exactly the given filter with TSYNC after the "
+                "last privileged step, ids, session, cwd/host/domain, namespaces, clone-into-cgroup, fexecve, trace-me/stop/filter order, sync gate)."),
+    level_note=SYMEX_NOTE + KERN_NOTE + "That Linux implements these calls as documented is outside.",
+    explanation="Start/forkAndExecInChild/syncWithChild executed symbolically as two model processes; oracle = 15-line specification of the security state per option set.",
+    bounds={"options": "full cross product of {credential, drop-caps, no-new-privs, seccomp, ptrace, stop-before-seccomp, sync callback, late cgroup unshare, NoSetGroups} x all clone-flag words x "
+                       "orthogonal options {groups, gid map, cgroup fd, exec fd, workdir, host/domain name, pivot root, ctty} all-off/all-on (quick+thorough); thorough: orthogonal options independent",
+            "schedules": "parent/child interleaving fixed to run-until-block (preemption bound 0)", "faults": "none (see C07)"},
+    outside=["option sets the kernel rejects for an unprivileged host (host is root here)", "mount list / rlimit list contents (C05/C08)", "real kernel behaviour"],
+    assumptions=["host process is root with all capabilities", "K-* contract clauses"],
+    harnesses=[dict(pkg=FE, run="^VerifC04_OptionsBundled_p%d$" % i, replay="model", preempt=0, timeout=1500,
+                    reach=["execed", "drop-caps", "nnp", "filter", "setgroups", "into-cgroup", "fexecve"] + (["stops-first"] if i else []) + ["sync"]) for i in range(4)] +
+              [dict(pkg=FE, run="^VerifC04_Options$", tiers=["thorough"], replay="model", preempt=0, timeout=30000, max_paths=30000000)],
+)
+
+PROPS["C06"] = dict(
+    level="other",
+    level_text=("Bounded symbolic execution of prepareFds and the two descriptor-shuffling passes inside the real launcher against the K-FD model: the listed descriptor numbers, "
+                "the exec and cgroup descriptors and the socketpair numbers are solver variables (any order, repeats, overlap with 0..n-1 and with each other, the close marker); "
+                "at exec descriptor i must be the i-th listed open file with close-on-exec clear and nothing else may be open; Start must leave *Runner and the launcher's own table unchanged "
+                "(checked with and without vfork memory sharing)."),
+    level_note=SYMEX_NOTE + KERN_NOTE + "Assumption: descriptors of the launching process other than its stdio are close-on-exec (Go's convention under ForkLock).",
+    explanation="prepareFds + pass 1/2 + Start executed symbolically on symbolic descriptor numbers; oracle on the model process' table at exec.",
+    bounds={"list length": "<=2 (quick) / <=3 (thorough)", "descriptor numbers": "< 6 (quick) / < 8 (thorough) or the close marker; socketpair numbers < 64",
+            "exec/cgroup fd": "present/absent, any number in range", "vfork": "both clone variants"},
+    outside=["descriptors opened concurrently by other threads (C17)", "lists longer than the bound"],
+    assumptions=["non-listed descriptors >= 3 of the launcher are close-on-exec"],
+    harnesses=[dict(pkg=FE, run="^VerifC06_Files2_p%d$" % i, tiers=["quick", "thorough"], replay="model", preempt=0, timeout=1500,
+                    reach=["execed", "marker"] + (["execfile"] if i & 1 else [])) for i in range(4)] +
+              [dict(pkg=FE, run="^VerifC06_Files3_p%d$" % i, tiers=["thorough"], replay="model", preempt=0, timeout=30000, max_paths=30000000) for i in range(4)],
+)
+
+PROPS["C07"] = dict(
+    level="fault_enumeration",
+    level_text=("Solver-driven fault injection into the real launcher: at every modelled call of parent and child one failure with an arbitrary errno (SMT variable) may be "
+                "injected, for each configuration of {ptrace, seccomp, user namespace, late cgroup unshare, sync callback}; z3 decides which call sites are reachable and the "
+                "assertions (callback only while the child waits before exec; failed Start => program never ran, child killed and reaped, sync channel closed, ChildError names "
+                "the failing step and carries its errno; failing callback => error) are discharged for all errno values."),
+    level_note=SYMEX_NOTE + KERN_NOTE,
+    explanation="Start/forkAndExecInChild/syncWithChild with K-FAULT enabled (one fault per run, any errno); spec of error locations in the harness (expectedLocs).",
+    bounds={"faults": "one injected failure per run at any of ~45 call sites, errno symbolic in 1..133 (EINTR/ETXTBSY/EEXIST/ESRCH excluded)",
+            "configurations": "ptrace x seccomp x {no namespaces, user+mount+pid+uts namespaces} x late cgroup unshare x sync callback (incl. failing callback); credential, groups, 1 mount, 2 rlimits, pivot root, workdir, host/domain name switched on",
+            "schedules": "run-until-block (preemption bound 0)"},
+    outside=["EINTR storms, partial writes on the sync socket", "container-side relay of the sync (C10 machinery)"],
+    assumptions=["K-* contract clauses"],
+    harnesses=[dict(pkg=FE, run="^VerifC07_Faults_p%d$" % i, replay="model", preempt=0, timeout=1500, reach=["start-error", "start-ok"] + (["callback-error"] if i & 2 else [])) for i in range(4)],
+)
